@@ -56,6 +56,20 @@ def _err_blocks(body):
     return out
 
 
+def _moved_to(body, l):
+    """locals the whole value of `l` is moved / copied into (a spliced helper hands its result on through such moves)"""
+    out, work = {l}, [l]
+    while work:
+        a = work.pop()
+        for (b, i, node, how) in R.uses_of(body, a):
+            if i != R.TERM and how == "operand" and node["rv"]["k"] == "use" and not node["lhs"][1]:
+                pl = op_place(node["rv"]["op"])
+                if pl and pl[0] == a and not pl[1] and node["lhs"][0] not in out:
+                    out.add(node["lhs"][0])
+                    work.append(node["lhs"][0])
+    return out
+
+
 def option_none_fate(prog, body, opt_local, depth=6):
     """what happens when the Option in `opt_local` is None: 'err' | 'ok-exit' (path) | 'unused'"""
     aliases = {opt_local}
@@ -72,9 +86,9 @@ def option_none_fate(prog, body, opt_local, depth=6):
                 last = c.path.split("::")[-1]
                 a0 = op_place(node["args"][0]) if node["args"] else None
                 if a0 and a0[0] == a and last in ("ok_or", "ok_or_else"):
-                    r = node["dest"][0]
-                    brk = R.try_break_edges(body, r)
-                    if brk or node["dest"][0] == 0:
+                    rs = _moved_to(body, node["dest"][0])
+                    brk = any(R.try_break_edges(body, r) for r in rs)
+                    if brk or 0 in rs:
                         verdicts.append(("err", f".{last}(..)?"))
                     else:
                         verdicts.append(("ok-exit", [b]))
